@@ -5,7 +5,7 @@ H (generated Go scenarios on generated struct types run against the real optics 
 Lean oracle running Model/Optics.lean on an abstract record model) + direct oracle (this file
 computes the expected whole-value snapshots from the property itself: only the foci change,
 values are positional, the round trip restores)."""
-import json, os, re
+import json, os, re, subprocess
 from concurrent.futures import ThreadPoolExecutor
 import vlib
 
@@ -177,6 +177,60 @@ class World:
         t = Ty(name, "struct", fields=fields)
         self.embnames[name] = names
         return t
+
+    # ---- promoted-field family (added for joins whose component lenses carry a non-zero hseq RootOffs)
+    def add_promoted(self, k):
+        """One family of struct types in which fields are PROMOTED from value-embedded structs that
+        do not sit at offset 0, surrounded by same-typed decoy fields on every level:
+          P<k>M{x..}                      the embedded leaf struct (focus + same-typed neighbours)
+          P<k>N{x.. P<k>M x..}            embeds M behind leading fields (second embedding level)
+          P<k>I1{x.. P<k>M x..}           intermediate type, fields of M promoted once
+          P<k>I2{x.. P<k>N x..}           intermediate type, fields of M promoted twice (through N)
+          P<k>E{x.. a,b I1  c,d I2 ..}    carrier of intermediate-typed fields, itself embedded in R
+          P<k>O{x.. a,b I1  c,d I2 ..}    outer type: two fields of each intermediate type (outer-side decoys)
+          P<k>R{x.. P<k>E  a,b O  x..}    root: outer lenses on fields promoted from E, and on O (nested joins)
+        x = scalar fields, mostly of ONE type X per family (a misplaced access then lands on a
+        well-typed neighbour and yields a clean wrong value), a few of another type Y.
+        Returns the types usable as roots of a chain."""
+        rng = self.rng
+        X = rng.choice([INT, INT, STR, I64, MYI, F64, MYS, I32, BYT, I8])
+        Y = rng.choice([t for t in SCALARS if t.name != X.name])
+
+        def struct(suffix, specs):
+            name = "P%d%s" % (k, suffix)
+            fields, names = [], set()
+            for i, (kind, ty) in enumerate(specs):
+                if kind == "e":
+                    fields.append(Field(ty.name, ty, embedded=True))
+                    names |= self.embnames[ty.name] | {ty.name}
+                else:
+                    fields.append(Field("%s_%d" % (name, i), ty))
+                    names.add(fields[-1].name)
+            t = Ty(name, "struct", fields=fields)
+            self.embnames[name] = names
+            self.types.append(t)
+            return t
+
+        def xs(lo, hi):
+            return [("s", Y if rng.random() < 0.15 else X) for _ in range(rng.randrange(lo, hi + 1))]
+
+        def around(mid, lead_lo=1):
+            # leading fields put everything in `mid` at a non-zero offset (lead_lo=0: sometimes none, the control)
+            lead = xs(lead_lo, 2)
+            rest = mid + xs(0, 2)
+            if len(rest) > 1 and rng.random() < 0.5:
+                rng.shuffle(rest)
+            return lead + rest
+
+        M = struct("M", xs(2, 3))
+        N = struct("N", around([("e", M)], 0 if rng.random() < 0.2 else 1))
+        I1 = struct("I1", around([("e", M)], 0 if rng.random() < 0.15 else 1))
+        I2 = struct("I2", around([("e", N)], 0 if rng.random() < 0.15 else 1))
+        E = struct("E", around([("n", I1), ("n", I2), ("n", I1), ("n", I2)], 0))
+        O = struct("O", around([("n", I1), ("n", I1), ("n", I2), ("n", I2)], 0))
+        R = struct("R", around([("e", E), ("n", O), ("n", O)]))
+        self.promoted = getattr(self, "promoted", []) + [dict(roots=[R, O, E, I2], X=X)]
+        return self.promoted[-1]
 
     def flatten(self, ty, prefix=()):
         """hseq's listing: pre-order, value-embedded structs are listed and then descended into."""
@@ -422,6 +476,73 @@ class Gen:
                         go=body, expect=";".join(exp))
         return None
 
+    def pjoin_chains(self, fam):
+        """every chain of 2..4 leaf lenses from a root of the family to a scalar field promoted from a
+        value-embedded struct, with the attributes the scenarios are stratified by"""
+        if "chains" in fam:
+            return fam["chains"]
+
+        def walk(cur, left):
+            for e in self.w.flatten(cur):
+                if e[1].kind != "struct":
+                    if len(e[2]) >= 2:
+                        yield [(cur, e)]
+                elif left > 1:
+                    for c in walk(e[1], left - 1):
+                        yield [(cur, e)] + c
+        out = []
+        for root in fam["roots"]:
+            for ls in walk(root, 4):
+                if len(ls) < 2:
+                    continue
+                cur, last = ls[-1]
+                out.append(dict(
+                    ls=ls, root=root, leaves=len(ls), embed_depth=len(last[2]) - 1,
+                    inner_offset_nonzero=any(i != 0 for i in last[2][:-1]),
+                    outer_promoted=sum(1 for c, e in ls[:-1] if len(e[2]) >= 2),
+                    outer_embedded_struct=sum(1 for c, e in ls[:-1] if len(e[2]) == 1 and c.fields[e[2][0]].embedded),
+                    same_typed_decoys=sum(1 for x in self.w.flatten(cur) if x[1].name == last[1].name) - 1))
+        fam["chains"] = out
+        return out
+
+    def scen_pjoin(self, fam):
+        """Join chains (2..4 leaf lenses, any association) whose LAST lens focuses a field promoted
+        from a value-embedded struct (embedding depth 1 or 2) and whose other lenses focus plain,
+        promoted or embedded-struct-typed fields; same-typed decoys surround every focus.  The
+        expected snapshots are the property's reading (ops_lens): exactly the cell at the joined
+        path is read and written."""
+        rng = self.rng
+        cs = self.pjoin_chains(fam)
+        if not cs:
+            return None
+        # stratified: aim at a combination of attributes, drop the aims one by one when the family has no such chain
+        aims = [("inner_offset_nonzero", lambda c, v=rng.random() < 0.9: c["inner_offset_nonzero"] or not v),
+                ("embed_depth", lambda c, v=rng.choice([1, 2]): c["embed_depth"] == v),
+                ("leaves", lambda c, v=rng.choice([2, 2, 3, 3, 4]): c["leaves"] == v),
+                ("decoys", lambda c, v=rng.random() < 0.8: c["same_typed_decoys"] >= 1 or not v),
+                ("outer_promoted", lambda c, v=rng.choice([0, 0, 1]): min(c["outer_promoted"], 1) == v),
+                ("outer_embedded_struct", lambda c, v=rng.choice([0, 0, 1]): min(c["outer_embedded_struct"], 1) == v)]
+        while True:
+            cand = [c for c in cs if all(f(c) for _, f in aims)]
+            if cand or not aims:
+                break
+            aims.pop()
+        c = rng.choice(cand)
+        root = c["root"]
+        o = self.tree([self.leaf(cur, e) for cur, e in c["ls"]])
+        flavour = "pjoin"
+        if o_dst(o).name in WIDEINT and rng.random() < 0.2:
+            o = ("b", o, rng.randrange(-40, 40) or 7)
+            flavour = "pjoin+b"
+        s0 = rnd(rng, root)
+        ops, go, exp = self.ops_lens(root, o, s0, flavour)
+        body = ["s := %s" % golit(root, s0), "l := %s" % o_go(o)] + go
+        s = dict(kind="O", flavour=flavour, depth=o_depth(o), line="O %s | %s | %s" % (o_line(o), tok(root, s0), ops),
+                 go=body, expect=";".join(exp))
+        for k in PJ_KEYS:
+            s[k] = c[k[3:]]
+        return s
+
     def scen_shape(self, n, same_typed):
         rng = self.rng
         for _ in range(300):
@@ -622,6 +743,9 @@ class Gen:
         return dict(kind="K", isnil=isnil, line=line, go=go, expect=";".join(exp))
 
 
+PJOIN_PER_FAMILY = 12
+
+
 def plan(rng, scale):
     """scenario mix of one batch (≈ 55*scale scenarios)"""
     p = []
@@ -654,6 +778,13 @@ def gen_batch(rng, scale):
             s = g.scen_optic(it[0])
         if s is not None:
             scen.append(s)
+    # joins through promoted fields: generated after the regular mix (which keeps its random stream)
+    for k in range(max(2, scale // 2)):
+        fam = w.add_promoted(k)
+        for _ in range(PJOIN_PER_FAMILY):
+            s = g.scen_pjoin(fam)
+            if s is not None:
+                scen.append(s)
     return w.go_decls(), scen
 
 
@@ -686,6 +817,14 @@ def go_file(decls, scen):
     return "\n".join(out)
 
 
+PJ_KEYS = ("pj_leaves", "pj_embed_depth", "pj_inner_offset_nonzero", "pj_outer_promoted", "pj_outer_embedded_struct", "pj_same_typed_decoys")
+
+
+def messy(got, expected=""):
+    """a result line that shows memory read or written outside the value (crash, fault, wild, escaped or overlong atoms)"""
+    return any(x in str(got) for x in ("crash:", "panic:", "wild:", "\\x", "bad-op")) or len(str(got)) > len(str(expected)) + 40
+
+
 WHAT = {"O": "composed lens (Join/BiMap/BiMapS..F/Getter/Setter) does not read/write exactly its focus with the converted value",
         "S": "ShapeN lens does not read/write its N fields positionally as its component lenses would",
         "I": "Iso.Forward then Iso.Inverse does not restore the source focus / changes something outside the foci",
@@ -699,8 +838,37 @@ def run_batch(ctx, b, decls, scen):
     if binp is None:
         return None, err
     lines = [s["line"] for s in scen]
-    rc, impl, err = ctx.run_harness(binp, [], lines)
-    return impl, err
+    return run_cases(binp, lines)
+
+
+def run_cases(binp, lines, max_restarts=40, timeout=600):
+    """Run the scenario binary so that EVERY case gets a result line of its own, also when an optic
+    addresses memory outside its focus: the output is read as bytes (undecodable bytes are
+    escaped, never an exception), and when the process dies (a fatal runtime error — out of
+    memory on a wild length, a bad pointer met by the collector — cannot be recovered inside the
+    harness) the case it died in gets the line `crash:<first line of stderr>` and the run is
+    resumed behind it (`harness.bin <k>` starts at cases[k]).  On a tree where the optics stay inside
+    their values this is exactly one process run."""
+    impl, errs, k = [], [], 0
+    for attempt in range(max_restarts + 1):
+        if k >= len(lines):
+            break
+        try:
+            p = subprocess.run([binp, str(k)], input=("\n".join(lines[k:]) + "\n").encode(), capture_output=True, timeout=timeout)
+            rc, out, err = p.returncode, p.stdout, p.stderr.decode("utf-8", "backslashreplace")
+        except subprocess.TimeoutExpired as ex:
+            rc, out, err = -1, ex.stdout or b"", "timeout after %ds" % timeout
+        got = out.decode("utf-8", "backslashreplace").split("\n")
+        got.pop()  # text behind the last newline: empty, or the torn line of a case that died
+        got = got[:len(lines) - k]
+        impl += got
+        k += len(got)
+        if k < len(lines):
+            first = next((l for l in err.split("\n") if l.strip()), "no output, rc=%s" % rc)
+            errs.append("case %d: %s" % (k, err[:600]))
+            impl.append("crash:" + first.strip()[:120])
+            k += 1
+    return impl, "\n".join(errs)
 
 
 def attribute(ctx):
@@ -731,9 +899,12 @@ def attribute(ctx):
 
 def run(ctx):
     ctx.cov["rule"] = ("cases = generated Go scenarios over generated struct types (value-embedded and plain nested to depth 4, repeated field types): "
-                       "nested Join chains (any association), BiMap/BiMapS/B/I/F, Getter/Setter, ForShape2..9 (by type and by name, mixed and same-typed), "
+                       "nested Join chains (any association), Join chains of 2..4 lenses ending on a field promoted from a value-embedded struct "
+                       "(embedding depth 1 and 2, non-zero offset, same-typed decoy fields around the focus on the inner and the outer side, "
+                       "outer lenses on plain / promoted / embedded-struct fields; distribution pjoin_*), BiMap/BiMapS/B/I/F, Getter/Setter, ForShape2..9 (by type and by name, mixed and same-typed), "
                        "NewLensM on maps (incl. nil map), Iso and Morphism lists (nil, repeated, nested) between two structs; every case snapshots the whole value(s); "
-                       "non-trivial = every case (each performs at least one Put/Forward and compares complete snapshots); distinct by case line")
+                       "non-trivial = every case (each performs at least one Put/Forward and compares complete snapshots); distinct by case line; "
+                       "a case in which the real optics fault or kill the scenario process is a result line of that case (panic:/crash:), the run resumes behind it")
     ctx.assumptions += ["Lens.Put writes only through its pointer argument and returns it (state-passing reading used by the translator)",
                         "leaf field lenses (ForProduct1) are lawful and pairwise disjoint on distinct fields — property C01; here they are hypotheses of the theorems and cell-path lenses in the oracle",
                         "user conversion functions are parameters; BiMapS/B/I/F are checked on types over one underlying type (mutually inverse conversions); map aliasing is outside the model"]
@@ -774,6 +945,9 @@ def run(ctx):
             if s["kind"] == "O":
                 ctx.hist("optic", s["flavour"])
                 ctx.hist("join_depth", s["depth"])
+                if "pj_leaves" in s:  # joins through promoted fields (scen_pjoin)
+                    for k in PJ_KEYS:
+                        ctx.hist(k.replace("pj_", "pjoin_"), s[k])
             elif s["kind"] == "S":
                 ctx.hist("shape_arity", s["arity"])
                 ctx.hist("shape_same_typed_fields", s["nsame"])
@@ -788,9 +962,14 @@ def run(ctx):
             if got != s["expect"]:
                 key = {"kind": s["kind"]}
                 case = {"line": s["line"], "go": s["go"], "types": decls, "expect": s["expect"], "kind": s["kind"]}
-                for k in ("flavour", "depth", "arity", "nsame", "bytype", "entries", "distinct", "nnil", "nrep", "nest", "isnil"):
+                for k in ("flavour", "depth", "arity", "nsame", "bytype", "entries", "distinct", "nnil", "nrep", "nest", "isnil") + PJ_KEYS:
                     if k in s:
                         case[k] = s[k]
                 ctx.violations.append(vlib.Violation("impl", WHAT[s["kind"]], case=case, expected=s["expect"], got=got, key=key))
             elif len([x for x in ctx.cov["samples"] if x["case"][0] == s["kind"]]) < 1:
                 ctx.sample({"case": s["line"], "impl": got, "model": s["expect"]}, limit=8)
+        if err:
+            ctx.note("batch %d: the scenario binary died and was resumed: %s" % (b, err[:300].replace("\n", " / ")))
+    # report a failing input whose result line is well-formed first (a wrong value on a well-typed neighbour reads
+    # better than the garbage of a wrongly typed access); the order is otherwise the generation order
+    ctx.violations.sort(key=lambda v: 1 if messy(v.got, v.expected) else 0)
